@@ -823,6 +823,9 @@ func (client *client) internalClose() {
 		client.unregister(client)
 		client.server.statsManager.clientDisconnected(client.opts.ClientID)
 	}
+	client.server.mu.Lock()
+	delete(client.server.connecting, client)
+	client.server.mu.Unlock()
 	putBufioReader(client.bufr)
 	putBufioWriter(client.bufw)
 	close(client.closed)
